@@ -52,17 +52,23 @@ def guarded(fn, cpu=None, wall=None):
     """drive_codec.guarded() (alarm-based, classifies the outcome) under an additional CPU-time budget."""
     dc.CALL_TIMEOUT = wall or CALL_WALL
     signal.signal(signal.SIGVTALRM, dc._alarm)
-    for attempt in (1, 2):
-        signal.setitimer(signal.ITIMER_VIRTUAL, cpu or CALL_CPU)
+    r = {'st': 'timeout', 'site': ''}
+    for attempt in (1, 2, 3):
+        # a real hang (a busy loop) exceeds any budget; a call that was merely cut short on an overloaded machine does not:
+        # a "timeout" under the small budget is confirmed under a budget four times as large before it is recorded
+        signal.setitimer(signal.ITIMER_VIRTUAL, (cpu or CALL_CPU) * (1 if attempt == 1 else 4))
         try:
             try:
-                return dc.guarded(fn)
+                r = dc.guarded(fn)
             finally:
                 signal.setitimer(signal.ITIMER_VIRTUAL, 0)
+            if r['st'] != 'timeout' or attempt >= 2:
+                return r
         except dc.CallTimeout:
             # the budget expired between the return of the call and the disarming of the timer: run again
-            if attempt == 2:
+            if attempt == 3:
                 return {'st': 'timeout', 'site': ''}
+    return r
 
 INDENTS = [('none', None), ('0', 0), ('1', 1), ('4', 4)]
 NOFL = {'c': 'NA', 's': 0, 'm': [], 'e': 0}
